@@ -80,8 +80,9 @@ type parseContext struct {
 //
 // The expansion depth limit alone does not bound the amount of work: a
 // snippet or a file that imports itself twice doubles the number of pending
-// imports at each level.
-const maxImportExpansions = 65536
+// imports at each level. Every expansion re-scans the subtree it was made
+// in, so the limit also has to keep that quadratic amount of work small.
+const maxImportExpansions = 1024
 
 func validateNodeName(s string) error {
 	if len(s) == 0 {
